@@ -339,6 +339,60 @@ inline void signal_string_values(const vf::opts &o, vf::report &R, uint64_t case
     }
 }
 
+// ---------------------------------------------------------------------------------------------
+// Emissions that construct the value in place from several arguments - and whose constructor sometimes THROWS. The exception belongs
+// to the caller of the collector; the listeners that were waiting are still waiting afterwards: they receive the next value, are
+// cancelled exactly once at disconnect, and callback objects are released exactly once.
+struct st_val {
+    std::string text; int n;
+    st_val(const std::string &t, int nn, bool boom) : text(t), n(nn) { if (boom) throw vf::test_exc{31}; }
+};
+inline cocls::async<void> st_listener(cocls::signal<st_val>::emitter em, std::vector<int> &got, int &canceled) {
+    try { for (;;) { st_val &v = co_await em; got.push_back(v.text.size() > 20 ? v.n : -1); } }
+    catch (const cocls::await_canceled_exception &) { canceled++; }
+}
+struct st_cb_guard { int *released; explicit st_cb_guard(int *r) : released(r) {} st_cb_guard(st_cb_guard &&o) noexcept : released(o.released) { o.released = nullptr; } st_cb_guard(const st_cb_guard &) = delete; ~st_cb_guard() { if (released) (*released)++; } };
+inline void signal_throwing_values(const vf::opts &o, vf::report &R, uint64_t cases) {
+    vf::rng master(vf::mix(o.seed, 0x15b));
+    for (uint64_t cn = 0; cn < cases && R.nviol() < 5; cn++) {
+        vf::rng r(master.next());
+        vf::set_crash_ctx(R.prop.c_str(), "signal_throwing_values", o.seed, cn);
+        std::string err, desc;
+        int nl = 1 + (int)r.below(5);
+        std::vector<std::vector<int>> got((size_t)nl); std::vector<int> canceled((size_t)nl, 0), released((size_t)nl, 0), kind((size_t)nl, 0);
+        std::vector<int> emitted; int thrown = 0, escaped = 0;
+        {
+            cocls::signal<st_val> sig;
+            auto col = sig.get_collector();
+            for (int i = 0; i < nl; i++) {
+                kind[(size_t)i] = (int)r.below(2);
+                auto *g = &got[(size_t)i];
+                if (kind[(size_t)i] == 0) { st_listener(sig.get_emitter(), *g, canceled[(size_t)i]).detach(); desc += "coroutine,"; }
+                else { sig.connect([g, gd = st_cb_guard(&released[(size_t)i])](st_val &v) { g->push_back(v.text.size() > 20 ? v.n : -1); return true; }); desc += "callback,"; }
+            }
+            int ne = 2 + (int)r.below(6);
+            for (int e = 0; e < ne; e++) {
+                bool boom = r.chance(1, 3);
+                std::string text = "constructed in place " + std::to_string(cn) + "/" + std::to_string(e);
+                try { col(text, e, boom); emitted.push_back(e); desc += " emit(in place)"; }
+                catch (const vf::test_exc &) { escaped++; desc += " emit(constructor throws)"; }
+                thrown += boom;
+            }
+        }
+        R.cases++;
+        if (escaped != thrown) err = "the constructor's exception did not reach the caller of the collector";
+        for (int i = 0; i < nl && err.empty(); i++) {
+            if (got[(size_t)i] != emitted) err = std::string(kind[(size_t)i] ? "callback" : "coroutine") + " listener #" + std::to_string(i) + " received " + std::to_string(got[(size_t)i].size()) + " of the " + std::to_string(emitted.size()) + " successfully emitted values (an emission whose value constructor threw must leave the waiting listeners waiting)";
+            else if (kind[(size_t)i] == 0 && canceled[(size_t)i] != 1) err = "coroutine listener cancelled " + std::to_string(canceled[(size_t)i]) + " times at disconnect";
+            else if (kind[(size_t)i] == 1 && released[(size_t)i] != 1) err = "callback object released " + std::to_string(released[(size_t)i]) + " times at disconnect";
+        }
+        if (!err.empty()) { R.violation("monitor:delivery|signal_throwing_values", err, vf::jobj().kv("case", (unsigned long long)cn).kv("seed", (unsigned long long)o.seed).kv("desc", desc).str()); continue; }
+        R.nontrivial_cases++;
+        R.sig(desc);
+        if (thrown) R.cls("histories_with_a_throwing_value_constructor");
+    }
+}
+
 inline void signal_history(const vf::opts &o, vf::report &R, uint64_t histories) {
     vf::rng master(vf::mix(o.seed, 0x15));
     for (uint64_t hn = 0; hn < histories && R.nviol() < 5; hn++) {
